@@ -15,7 +15,7 @@ from ..engine import emit, cfg as cfgmod, flow
 from ..engine import pattern as P
 from ..engine.facts import dotted, const, src, walk_func, enclosing_stmt, ancestors, str_value
 from . import skeletons as sk
-from .common import calls, stmt_nodes, contains, norm_successors, pn, access_paths, assigned_from
+from .common import calls, stmt_nodes, contains, norm_successors, pn, access_paths, assigned_from, guards_of, arms, return_leaves, branch_paths
 
 
 @rule("C12.line-accounting", min_instances=6)
@@ -291,7 +291,9 @@ def warning_regions(ctx):
     sw = db.func("template._show_warnings_as._show")
     swa = db.func("template._show_warnings_as")
     orig = assigned_from(swa, "warnings.showwarning")
-    ctx.check(P.has(sw, "$loc = %s($_, $_, $_, $_)\nif $loc is None:\n    return" % pn(swa, 0)) and sum(P.count(sw, "%s($_, $_, $_, $_, $_, $_)" % o_) for o_ in orig) == 1, "show.once", db.where(sw), "the hook does not show each warning exactly once through the original hook", "dropped or forwarded exactly once")
+    locv = assigned_from(sw, "%s($_, $_, $_, $_)" % pn(swa, 0))
+    fwd = [c_ for o_ in orig for c_ in walk_func(sw) if isinstance(c_, ast.Call) and dotted(c_.func) == o_ and len(c_.args) == 6]
+    ctx.check(len(locv) == 1 and len(fwd) == 1 and ("%s is None" % sorted(locv)[0], False) in guards_of(fwd[0], sw), "show.once", db.where(sw), "the hook does not show each warning exactly once through the original hook", "dropped or forwarded exactly once")
 
 
 @rule("C12.line-split-agreement", min_instances=3, props=["C11"])
